@@ -3,8 +3,28 @@ TRUST = ["TLC 1.8 / SANY / CommunityModules Json+IOUtils evaluate the specificat
          "harness/common.py proj_* (reads public accessors and slots; exact float->integer conversion with fractions)",
          "Cal.tla / Ops.tla / Text.tla are a faithful transcription of ISO 8601 and the library's documented behaviour"]
 
+NOT_APPLICABLE = {}
+
 PROPS = {
+    "C01": {
+        "technique": "TLA+ spec (Ops.tla AddExactClause on the integer timeline) + TLC trace validation of recorded p+d executions",
+        "level_text": "Every recorded addition of the real library is judged by TLC against the abstract postcondition of Ops.tla "
+                      "(instant shifted exactly, same representation and offset, all fields valid) under the mode the trace spec tracks; "
+                      "systematic day-by-day sweeps over every year type and mode plus seeded random points/durations.",
+        "drivers": ["c01"],
+        "mc": [],
+        "expect_ops": ["Add"],
+        "rule": "one case = one addition p + d / d + p / p - (-d) under one mode spelling; non-trivial = the result's "
+                "date fields differ from the operand's (a day, month, year, leap-day or week-year boundary was crossed)",
+        "exhaustive_part": {"quick": "every day of 8 (mode, year-type) combinations as a start x 8 unit steps",
+                            "thorough": "every day of 34 (mode, year-type) combinations x 3 representations x 8 unit steps"},
+        "assumptions": TRUST,
+    },
     "C03": {
+        "technique": "TLA+ calendar definition (Cal.tla) model-checked with TLC (+ Apalache lemmas) and TLC trace validation of every conversion row of the real helpers",
+        "level_text": "Cal.tla is the proleptic definition; TLC checks it is self-consistent (inverse pairs, week rule, lengths) on every day "
+                      "of the explored years, and every row produced by the six real conversion functions and the calendar queries is "
+                      "validated by TLC against it - exhaustively over a 400-year cycle x 4 modes in the thorough tier.",
         "drivers": ["c03"],
         "mc": [{"module": "MC_C03.tla", "cfg": "MC_C03.cfg", "cfg_quick": "MC_C03_quick.cfg"}],
         "expect_ops": ["CalYear", "CalRange", "Conv"],
